@@ -409,6 +409,115 @@ Proof.
   split; [apply le_n|]. vm_compute. split; [reflexivity|discriminate].
 Qed.
 
+(** * (4) Life-cycle operations (RangeKeys, DestroyUnit, Close) for the real cachers.
+    The lruCache wrapper's Clear (Purge) forgets everything, so the theorems of Props/C16.v hold for it
+    over ALL life-cycle histories; the FIFO sharded cache's Clear skips the empty key, so for it they are
+    given for histories without DestroyUnit, and the DestroyUnit statement is refuted by witness. *)
+Theorem C16_map_lifecycle_lru_cache : forall (sized : bool) (cap mb : Z) (c0 : lcache),
+  init_cache sized cap mb = Some c0 ->
+  forall ops : list lop, life_trace_ok [] (life_run (lcache_ops c0) (unit_new (lcache_ops c0)) ops).
+Proof.
+  exact (fun sized cap mb c0 H ops =>
+    life_map_all (lcache_ops c0) (lcache_laws sized cap mb c0 H) ops (or_introl (lcache_clear_forgets sized cap mb c0 H))).
+Qed.
+
+Theorem C16_range_keys_lru_cache : forall (sized : bool) (cap mb : Z) (c0 : lcache),
+  init_cache sized cap mb = Some c0 ->
+  forall pre : list lop,
+  let C := lcache_ops c0 in
+  let s0 := life_final C (unit_new C) pre in
+  let m := life_ack_map (life_run C (unit_new C) pre) in
+  life_step C s0 LRangeKeys = (s0, RRange m) /\
+  NoDup (map fst m) /\ (forall k v, In (k, v) m <-> p_lookup m k = Some v).
+Proof.
+  exact (fun sized cap mb c0 H pre =>
+    range_keys_all (lcache_ops c0) (lcache_laws sized cap mb c0 H) pre (or_introl (lcache_clear_forgets sized cap mb c0 H))).
+Qed.
+
+Theorem C16_destroy_unit_lru_cache : forall (sized : bool) (cap mb : Z) (c0 : lcache),
+  init_cache sized cap mb = Some c0 ->
+  forall (pre : list lop) (o : oracle),
+  let C := lcache_ops c0 in
+  let s0 := life_final C (unit_new C) pre in
+  let r := life_step C s0 (LDestroyUnit o) in
+  let s1 := fst r in
+  u_cache s1 = c_clear C (u_cache s0) /\ cache_silent C (u_cache s1) /\
+  (hd false o = false ->
+     snd r = RErr ENone /\ u_pers s1 = [] /\
+     forall k, get_now C s1 k = GErr ENotFound /\ has_now C s1 k = ENotFound) /\
+  (hd false o = true ->
+     snd r = RErr EInjected /\ u_pers s1 = u_pers s0 /\
+     forall k, get_now C s1 k = spec_get (life_ack_map (life_run C (unit_new C) pre)) k).
+Proof.
+  exact (fun sized cap mb c0 H pre o =>
+    destroy_unit_all (lcache_ops c0) (lcache_laws sized cap mb c0 H) pre o (lcache_clear_forgets sized cap mb c0 H)).
+Qed.
+
+Theorem C16_close_lru_cache : forall (sized : bool) (cap mb : Z) (c0 : lcache),
+  init_cache sized cap mb = Some c0 ->
+  forall (pre : list lop) (o : oracle),
+  let C := lcache_ops c0 in
+  let s0 := life_final C (unit_new C) pre in
+  let r := life_step C s0 (LClose o) in
+  let s1 := fst r in
+  u_cache s1 = c_clear C (u_cache s0) /\ u_pers s1 = u_pers s0 /\
+  snd r = RErr (if hd false o then EInjected else ENone) /\
+  cache_silent C (u_cache s1) /\
+  (hd false o = true ->
+     forall k, get_now C s1 k = spec_get (life_ack_map (life_run C (unit_new C) pre)) k).
+Proof.
+  exact (fun sized cap mb c0 H pre o =>
+    let Hcf := lcache_clear_forgets sized cap mb c0 H in
+    let R := close_all (lcache_ops c0) (lcache_laws sized cap mb c0 H) pre o (or_introl Hcf) in
+    conj (proj1 R) (conj (proj1 (proj2 R)) (conj (proj1 (proj2 (proj2 R)))
+      (conj (proj1 (proj2 (proj2 (proj2 R))) Hcf) (proj2 (proj2 (proj2 (proj2 R)))))))).
+Qed.
+
+Theorem C16_map_lifecycle_fifo : forall (sz n : nat), (1 <= n)%nat ->
+  forall ops : list lop, destroy_free ops ->
+  life_trace_ok [] (life_run (fifo_ops sz n) (unit_new (fifo_ops sz n)) ops).
+Proof. exact (fun sz n Hn ops Hd => life_map_all (fifo_ops sz n) (fifo_laws sz n Hn) ops (or_intror Hd)). Qed.
+
+Theorem C16_range_keys_fifo : forall (sz n : nat), (1 <= n)%nat ->
+  forall pre : list lop, destroy_free pre ->
+  let C := fifo_ops sz n in
+  let s0 := life_final C (unit_new C) pre in
+  let m := life_ack_map (life_run C (unit_new C) pre) in
+  life_step C s0 LRangeKeys = (s0, RRange m) /\
+  NoDup (map fst m) /\ (forall k v, In (k, v) m <-> p_lookup m k = Some v).
+Proof. exact (fun sz n Hn pre Hd => range_keys_all (fifo_ops sz n) (fifo_laws sz n Hn) pre (or_intror Hd)). Qed.
+
+(** Close of a unit over the FIFO cache: the cache is cleared ([c_clear] = the cache's own Clear, which
+    keeps an entry under the empty key), the persister untouched, the persister's error returned *)
+Theorem C16_close_fifo : forall (sz n : nat), (1 <= n)%nat ->
+  forall (pre : list lop) (o : oracle), destroy_free pre ->
+  let C := fifo_ops sz n in
+  let s0 := life_final C (unit_new C) pre in
+  let r := life_step C s0 (LClose o) in
+  let s1 := fst r in
+  u_cache s1 = c_clear C (u_cache s0) /\ u_pers s1 = u_pers s0 /\
+  snd r = RErr (if hd false o then EInjected else ENone) /\
+  (hd false o = true ->
+     forall k, get_now C s1 k = spec_get (life_ack_map (life_run C (unit_new C) pre)) k).
+Proof.
+  exact (fun sz n Hn pre o Hd =>
+    let R := close_all (fifo_ops sz n) (fifo_laws sz n Hn) pre o (or_intror Hd) in
+    conj (proj1 R) (conj (proj1 (proj2 R)) (conj (proj1 (proj2 (proj2 R))) (proj2 (proj2 (proj2 (proj2 R))))))).
+Qed.
+
+(** FINDING (same root as F12, outside C16's domain of non-empty keys): DestroyUnit of a unit over the
+    FIFO cache does not empty the unit when the cache holds the empty key.  Put a; Put "" (stays in the
+    Go map); DestroyUnit succeeds, the persister is empty, yet Get "" still returns the destroyed value. *)
+Theorem C16_destroy_unit_fifo_refuted :
+  exists (sz n : nat) (pre : list lop) (k v : bytes), (1 <= n)%nat /\
+    let C := fifo_ops sz n in
+    let r := life_step C (life_final C (unit_new C) pre) (LDestroyUnit []) in
+    snd r = RErr ENone /\ u_pers (fst r) = [] /\ get_now C (fst r) k = GOk v.
+Proof.
+  exists 2%nat, 1%nat, [LData (OPut [1%N] [10%N] []); LData (OPut [] [5%N] [])], [], [5%N].
+  split; [apply le_n|]. vm_compute. repeat split; reflexivity.
+Qed.
+
 (** ** Non-vacuity: the constructors accept the parameters used, and concrete histories exercise
     eviction, read-through refill, a rejected overwrite, a rejected Remove and bulk reads. *)
 
@@ -487,3 +596,11 @@ Print Assumptions C16_lru_cache_invariant.
 Print Assumptions C16_fifo_cache_reachable.
 Print Assumptions C16_fifo_ring_invariant.
 Print Assumptions C16_cold_read_fifo.
+Print Assumptions C16_map_lifecycle_lru_cache.
+Print Assumptions C16_range_keys_lru_cache.
+Print Assumptions C16_destroy_unit_lru_cache.
+Print Assumptions C16_close_lru_cache.
+Print Assumptions C16_map_lifecycle_fifo.
+Print Assumptions C16_range_keys_fifo.
+Print Assumptions C16_close_fifo.
+Print Assumptions C16_destroy_unit_fifo_refuted.
